@@ -82,12 +82,16 @@ func parseRaceBlock(blk string) RaceReport {
 	}
 	r := RaceReport{Text: blk}
 	var parts []string
+	// RuntimeMap: BOTH conflicting accesses are inside runtime map operations (mapaccess*, mapassign*, mapdelete*,
+	// mapiter*): only those check the map's writing flag and abort the process ("concurrent map read and map
+	// write"). A plain len(m) or a field read racing with a map write is a data race but not a process abort.
+	inMap := 0
 	for _, s := range stacks {
+		if len(s) > 0 && strings.HasPrefix(s[0], "runtime.map") {
+			inMap++
+		}
 		for _, f := range s {
 			r.Funcs = append(r.Funcs, f)
-			if strings.HasPrefix(f, "runtime.map") {
-				r.RuntimeMap = true
-			}
 		}
 		// innermost non-runtime frame + outermost frame
 		inner, outer := "", ""
@@ -99,6 +103,7 @@ func parseRaceBlock(blk string) RaceReport {
 		}
 		parts = append(parts, inner+"<-"+outer)
 	}
+	r.RuntimeMap = len(stacks) >= 2 && inMap == len(stacks)
 	sort.Strings(parts)
 	r.Summary = strings.Join(parts, " || ")
 	if r.RuntimeMap {
